@@ -28,6 +28,19 @@ def ulps(a, b):
 PLAIN = (int, float, str, tuple, type(None), bool)
 
 
+class Runaway(Exception):
+    pass
+
+
+class BoundedErrorModel(ScriptedErrorModel):
+    """scripted error model that does not cycle: a generate call past the end of the script raises"""
+
+    def generate(self, code, probability, rng=None):
+        if len(self.calls) >= len(self.errors):
+            raise Runaway('generate call %d past the end of the scripted history' % (len(self.calls) + 1))
+        return super().generate(code, probability, rng)
+
+
 def fhex(x):
     """bit-exact rendering of a float for replays (None / non-floats as they are)"""
     return x.hex() if isinstance(x, float) else x
@@ -150,7 +163,10 @@ def run(ctx):
                 'reused DecodeResult object), in all sections and both modes; probabilities any binary64 in [0,1] '
                 '(random, thirds, float-noise sums, tiny, subnormal, next to 1, nextafter neighbours), given or '
                 'defaulted measurement probability, arbitrary label strings: echoed bit for bit and seen unchanged by '
-                'every generate / decode call. '
+                'every generate / decode call; decoders returning per-run scripted RECOVERIES (plain arrays / '
+                'DecodeResult(recovery) with overrides, by run index or from the `error` context, not a function of '
+                'the syndrome) on codes with 2..12 stabilizers and 1..4 steps where syndromes repeat within a call, '
+                'all 2^5 histories x {None,1..4}^2 limits on one fixed syndrome plus random histories. '
                 'nontrivial = history with >=1 failure and >=1 success consumed and some limit binding'
                 % ctx.pick(20, 40))
     ctx.props_obligations()
@@ -187,7 +203,7 @@ def run(ctx):
         return emr, emf, k, fails, want_err, lcs, cvs
 
     def scenario(code, mode, T, mr, mf, hist, tag, p=0.25, q=None, kinds=None, share=False, zero_tail=False,
-                 inplace=0, one_result=False, labels=('EM', 'DEC')):
+                 inplace=0, one_result=False, labels=('EM', 'DEC'), preset=None):
         """hist: list of (success, lc, cv, w); followed by an endless tail of failing copies of the last shape.
         kinds = None: lc/cv are integer vectors handed over as int arrays. Otherwise kinds[i] = (lc kind, cv kind) of
         run i and lc/cv are integers in units of 1/DEN (floats kinds carry k/4); share = the decoder hands out the
@@ -198,15 +214,24 @@ def run(ctx):
         one_result: it also returns one and the same DecodeResult object, with its attributes reassigned.
         The expected totals are the fold of the per-run VALUES as they were when they were returned.
         p, q: the probabilities handed to run / run_ftp (any binary64 in [0, 1]); labels of error model and decoder.
+        preset = {'full', 'errs', 'answers', 'rep'}: the runs are given as the step errors the error model generates
+        and the answers (plain recoveries, DecodeResults with a recovery ...) the decoder returns, already including
+        the tail; `full` holds the per-run outcomes (success, lc, cv, w) that the property assigns to those
+        (error, recovery) pairs (computed by plain_runs below, not by the implementation).
         Returns False if the history is outside the domain."""
         n = code.n_k_d[0]
         den = 1 if kinds is None else DEN
-        z = (lambda v: None if v is None else [0] * len(v)) if zero_tail else (lambda v: v)
-        tail = (False, z(hist[-1][1]), z(hist[-1][2]), 0)
-        full = hist + [tail] * ((mr or 0) + (mf or 0) + 2)
+        if preset is not None:
+            full = preset['full']
+        else:
+            z = (lambda v: None if v is None else [0] * len(v)) if zero_tail else (lambda v: v)
+            tail = (False, z(hist[-1][1]), z(hist[-1][2]), 0)
+            full = hist + [tail] * ((mr or 0) + (mf or 0) + 2)
         emr, emf, k, fails, want_err, lcs, cvs = fold(mr, mf, full)
         consumed = full[:k]
-        if kinds is None:
+        if preset is not None:
+            answers, fkinds = preset['answers'], None
+        elif kinds is None:
             answers = [DecodeResult(success=s, logical_commutations=None if lc is None else np.array(lc, dtype=int),
                                     custom_values=None if cv is None else np.array(cv, dtype=int))
                        for (s, lc, cv, _) in full]
@@ -267,8 +292,8 @@ def run(ctx):
                     return r
                 return answer
             answers = [answer_at(i) for i in range(len(sources))]
-        errs = []
-        for (_, _, _, w) in full:
+        errs = [] if preset is None else preset['errs']
+        for (_, _, _, w) in (full if preset is None else ()):
             # w spread over T step errors as single-qubit X errors (weights add over steps)
             left = w
             for t in range(T):
@@ -277,7 +302,10 @@ def run(ctx):
                 e[:kk] = 1
                 left -= kk
                 errs.append(e)
-        em, dec = ScriptedErrorModel(errs, label=labels[0]), ScriptedDecoder(answers, label=labels[1])
+        # the script covers every run a correct loop can make (and two more); a loop that asks for more never stops
+        em, dec = BoundedErrorModel(errs, label=labels[0]), ScriptedDecoder(answers, label=labels[1])
+        if preset is not None:
+            preset['decoder'].append(dec)
         kw = {}
         if mr is not None:
             kw['max_runs'] = mr
@@ -291,6 +319,8 @@ def run(ctx):
             res = 'ok'
         except QecsimError:
             data, res = None, 'ERR QecsimError %d' % len(dec.calls)
+        except Runaway:
+            data, res = None, 'ERR Runaway'
         except Exception as e:  # noqa
             data, res = None, 'ERR %s' % exc_class(e)
             if kinds is not None:
@@ -308,6 +338,8 @@ def run(ctx):
                    'the same array object whenever kind and value repeat' if share else 'a fresh array per run'),
                'history': [(s, lc, cv, w) for (s, lc, cv, w) in hist], 'result': res if data is None else
                {k: (v if isinstance(v, PLAIN) else repr(v)) for k, v in data.items() if k != 'wall_time'}}
+        if preset is not None:
+            rep.update(preset['rep'])
         if kinds is not None:
             # per run: success, (kind, values) of logical_commutations and of custom_values, error weight
             uv = (lambda kind, v: None if v is None else
@@ -321,6 +353,12 @@ def run(ctx):
         if want_err:
             if res != 'ERR QecsimError %d' % want_err:
                 ctx.violation('mismatch-error', 'inconsistent arrays not rejected at the run where they occur', rep)
+            impl = res
+        elif data is None and res.startswith('ERR Runaway'):
+            ctx.violation('runaway-loop', 'the loop went on past the end of the scripted history (more than 2 runs '
+                          'after the run at which a limit is reached)',
+                          dict(rep, want_n_run=k, want_n_fail=fails, generate_calls=len(em.calls),
+                               decoder_calls=len(dec.calls)))
             impl = res
         elif data is None:
             ctx.violation('unexpected-error', 'run raised although the history is consistent', rep)
@@ -463,6 +501,197 @@ def run(ctx):
         scenario(code, mode, T, mr, mf, hist, 'random', p=rand_prob(),
                  q=(None if rng.random() < 0.4 else rand_prob()) if mode == 'ftp' else None,
                  inplace=inplace, one_result=one_result, labels=rand_labels())
+
+    # ---- decoders that return RECOVERY operations (plain arrays, or DecodeResults carrying a recovery) ----
+    # The outcome of a run is then resolved by the loop itself from (that run's error, that run's recovery): success
+    # iff recovery ^ error commutes with all stabilizers and logicals, logical_commutations = its products with the
+    # logicals. The scripted recovery of run i is chosen per RUN (by the run index, or as the run's actual error -
+    # taken from the documented keyword context - times a scripted coset element), so it is NOT a function of the
+    # syndrome: on codes with few stabilizers the same syndrome recurs many times within one call with different
+    # outcomes. Expected per-run outcomes: evaluated here from the scripted (error, recovery) pairs with an independent
+    # symplectic product; expected aggregate: reference fold + engine on that outcome stream, as everywhere else.
+    from qecsim.models.toric import ToricCode
+    from harness.proxies import UserCode
+    rep3 = UserCode(S=[[0, 0, 0, 1, 1, 0], [0, 0, 0, 0, 1, 1]], X=[[1, 1, 1, 0, 0, 0]], Z=[[0, 0, 0, 1, 0, 0]],
+                    n_k_d=(3, 1, 1), label='repetition-3')
+    small_codes = [FiveQubitCode(), SteaneCode(), PlanarCode(2, 2), PlanarCode(2, 3), ToricCode(2, 2), rep3,
+                   PlanarCode(3, 3), FiveQubitCode(), rep3]
+    cinfo = {}
+
+    def info(code):
+        if id(code) not in cinfo:
+            cinfo[id(code)] = (code.n_k_d[0], np.array(code.stabilizers, dtype=int), np.array(code.logicals, dtype=int))
+        return cinfo[id(code)]
+
+    def sprod(a, b):
+        h = len(a) // 2
+        return (int(np.dot(a[:h], b[h:])) + int(np.dot(a[h:], b[:h]))) % 2
+
+    def pstr(v):
+        h = len(v) // 2
+        return ''.join('IXZY'[int(v[i]) + 2 * int(v[h + i])] for i in range(h))
+
+    def span(rows, nonzero=False):
+        """a random element of the group generated by the rows"""
+        while True:
+            pick_ = [rng.random() < 0.5 for _ in rows]
+            if any(pick_) or not nonzero:
+                break
+        out = np.zeros(rows.shape[1], dtype=int)
+        for row, b in zip(rows, pick_):
+            if b:
+                out ^= row
+        return out
+
+    def rand_pauli(n, wt):
+        e = np.zeros(2 * n, dtype=int)
+        for i in rng.sample(range(n), min(wt, n)):
+            x = rng.choice([(1, 0), (0, 1), (1, 1)])
+            e[i], e[n + i] = x
+        return e
+
+    def coset_elem(code, want_success):
+        """what recovery ^ error is to be: a stabilizer (success), a stabilizer times a non-trivial logical (failure
+        inside the code space) or, sometimes, times a single-qubit operator (usually outside the code space)"""
+        n, S, Lg = info(code)
+        c = span(S)
+        if not want_success:
+            c = c ^ (span(Lg, nonzero=True) if rng.random() < 0.8 else rand_pauli(n, 1))
+        return c
+
+    def plain_runs(code, mode, T, mr, mf, specs, tag, style, nbuf, p=0.25, q=None, labels=('EM', 'DEC')):
+        """specs[i] = {'steps': T step errors, 'coset': c, 'form', 's_over', 'lc_over', 'cv'}: in run i the error model
+        generates the step errors and the decoder returns recovery = (error of the run) ^ c in the given form:
+          plain   the recovery array itself            dr     DecodeResult(recovery=r)
+          dr-s    DecodeResult(success=s_over, recovery=r)    dr-lc  DecodeResult(recovery=r, logical_commutations=lc_over)
+        (dr* forms optionally with custom_values cv). style 'scripted': r prepared in advance per run index;
+        'oracle': r computed at decode time from the keyword context `error`; nbuf > 0: r is written into one of nbuf
+        decoder-owned buffers and that buffer is returned."""
+        n, S, Lg = info(code)
+        last = specs[-1]
+        tail = {'steps': [np.zeros(2 * n, dtype=int)] * T, 'coset': Lg[0].copy(), 's_over': None, 'lc_over': None,
+                'form': 'plain' if last['cv'] is None else 'dr', 'cv': None if last['cv'] is None else [0] * len(last['cv'])}
+        allspecs = specs + [tail] * ((mr or 0) + (mf or 0) + 2)
+        full, errs = [], []
+        for sp in allspecs:
+            e = np.zeros(2 * n, dtype=int)
+            w = 0
+            for st in sp['steps']:
+                e ^= st
+                w += sum(1 for i in range(n) if st[i] or st[n + i])
+            sp['r'] = e ^ sp['coset']
+            recovered = sp['r'] ^ e
+            lc = [sprod(recovered, row) for row in Lg]
+            ok = not any(sprod(recovered, row) for row in S) and not any(lc)
+            s_ = ok if sp['s_over'] is None else sp['s_over']
+            lc = lc if sp['lc_over'] is None else list(sp['lc_over'])
+            full.append((s_, lc, sp['cv'], w))
+            errs.extend(sp['steps'])
+        decs, bufs, cnt = [], [np.zeros(2 * n, dtype=int) for _ in range(nbuf)], [0]
+
+        def answer_at(i):
+            def answer():
+                sp = allspecs[i]
+                if style == 'oracle':
+                    r = np.array(decs[0].calls[-1]['kwargs']['error'], dtype=int) ^ sp['coset']
+                else:
+                    r = sp['r'].copy()
+                if nbuf:
+                    buf = bufs[cnt[0] % nbuf]
+                    cnt[0] += 1
+                    buf[...] = r
+                    r = buf
+                cv = None if sp['cv'] is None else np.array(sp['cv'], dtype=int)
+                if sp['form'] == 'plain':
+                    return r
+                if sp['form'] == 'dr-s':
+                    return DecodeResult(success=sp['s_over'], recovery=r, custom_values=cv)
+                if sp['form'] == 'dr-lc':
+                    return DecodeResult(recovery=r, logical_commutations=np.array(sp['lc_over'], dtype=int),
+                                        custom_values=cv)
+                return DecodeResult(recovery=r, custom_values=cv)
+            return answer
+
+        def show(sp):
+            d = {'step_errors': [pstr(st) for st in sp['steps']], 'returns': sp['form'], 'recovery': pstr(sp['r'])}
+            for key in ('s_over', 'lc_over', 'cv'):
+                if sp[key] is not None:
+                    d[{'s_over': 'success', 'lc_over': 'logical_commutations', 'cv': 'custom_values'}[key]] = sp[key]
+            return d
+        rep = {'runs': [show(sp) for sp in specs], 'tail_run': show(tail),
+               'stabilizer_rows': len(S), 'syndrome_bits_per_call': len(S) * T,
+               'decoder_arrays': ('recovery of run i %s; %s' % (
+                   'prepared per run index' if style == 'scripted' else
+                   'computed at decode time as kwargs["error"] ^ (scripted element of run i)',
+                   'fresh array per call' if not nbuf else
+                   '%d decoder-owned buffer(s) overwritten in place and returned again' % nbuf)),
+               'how_to_read': 'error model generates step_errors in order (T per run); decoder returns, at its i-th call, '
+                              'the recovery of run i in the form given (plain = the array itself; dr* = DecodeResult '
+                              'with that recovery and the listed overrides); history = the outcomes (success, lc, cv, '
+                              'error weight) the property assigns to each (error, recovery) pair'}
+        preset = {'full': full, 'errs': errs, 'answers': [answer_at(i) for i in range(len(allspecs))], 'rep': rep,
+                  'decoder': decs}
+        return scenario(code, mode, T, mr, mf, full[:len(specs)], tag, p=p, q=q, labels=labels, preset=preset)
+
+    def spec(steps, coset, form='plain', s_over=None, lc_over=None, cv=None):
+        return {'steps': steps, 'coset': coset, 'form': form, 's_over': s_over, 'lc_over': lc_over, 'cv': cv}
+
+    # (a) all success/failure histories x all limit pairs, ONE fixed error (so one syndrome) for the whole call
+    five = FiveQubitCode()
+    n5, S5, L5 = info(five)
+    lims5 = [None, 1, 2, 3, 4]
+    vi = 0
+    for mr in lims5:
+        for mf in lims5:
+            for bits in itertools.product([True, False], repeat=5 if not ctx.quick or (mr in (None, 4)) else 4):
+                for variant in ((0, 1) if not ctx.quick else (vi % 2,)):
+                    mode, T = ('ideal', 1) if variant == 0 else ('ftp', 2 + (vi // 2) % 2)
+                    steps = ([np.zeros(2 * n5, dtype=int)] * T if (vi // 4) % 2 == 0 else
+                             [rand_pauli(n5, 1) for _ in range(T)])
+                    specs = [spec(steps, coset_elem(five, b)) for b in bits]
+                    plain_runs(five, mode, T, mr, mf, specs, 'recovery-exhaustive',
+                               'oracle' if (vi // 8) % 2 else 'scripted', (vi // 16) % 3, q=0.0 if mode == 'ftp' else None)
+                vi += 1
+    # (b) random histories: codes with 2..12 stabilizers, 1..4 steps, errors fixed / from a small pool / random
+    for it in range(ctx.pick(500, 5000)):
+        code = rng.choice(small_codes)
+        n, S, Lg = info(code)
+        mode = rng.choice(['ideal', 'ftp'])
+        T = 1 if mode == 'ideal' else rng.randint(1, 4)
+        mr = rng.choice([None, None, 1, 2, 3, 5, 8, 13, rng.randint(1, ctx.pick(20, 40))])
+        mf = rng.choice([None, None, 1, 2, 3, 5, rng.randint(1, 8)])
+        ln = rng.randint(1, ctx.pick(16, 30))
+        epat = rng.choice(['fixed', 'fixed-identity', 'pool', 'pool', 'random'])
+        pool = [[np.zeros(2 * n, dtype=int)] * T] if epat == 'fixed-identity' else \
+            [[rand_pauli(n, rng.choice([0, 0, 1, 1, 2])) for _ in range(T)]
+             for _ in range(1 if epat == 'fixed' else rng.randint(2, 3))]
+        fpat = rng.choice(['plain', 'plain', 'plain', 'dr', 'mixed', 'mixed-cv'])
+        ncv = rng.randint(1, 2) if (fpat == 'dr' and rng.random() < 0.5) or fpat == 'mixed-cv' else 0
+        ps = rng.choice([0.2, 0.5, 0.8])
+        specs = []
+        for i in range(ln):
+            steps = [rand_pauli(n, rng.choice([0, 1, 2])) for _ in range(T)] if epat == 'random' else rng.choice(pool)
+            form = 'plain' if fpat == 'plain' else rng.choice(['dr', 'dr', 'dr-s', 'dr-lc']) if fpat == 'dr' else \
+                rng.choice(['plain', 'plain', 'dr', 'dr-s', 'dr-lc'])
+            if fpat == 'mixed-cv' and i < rng.randint(1, 3):
+                form = 'dr'         # presence of custom values is fixed by the first run; a later plain run is an error
+            specs.append(spec(steps, coset_elem(code, rng.random() < ps), form,
+                              s_over=(rng.random() < ps) if form == 'dr-s' else None,
+                              lc_over=[rng.randint(0, 1) for _ in Lg] if form == 'dr-lc' else None,
+                              cv=[rng.randint(-3, 9) for _ in range(ncv)] if (ncv and form != 'plain') else None))
+        plain_runs(code, mode, T, mr, mf, specs, 'recovery-random', rng.choice(['scripted', 'scripted', 'oracle']),
+                   rng.choice([0, 0, 1, 2]), p=rand_prob(),
+                   q=rng.choice([0.0, 0.0, None, rand_prob()]) if mode == 'ftp' else None, labels=rand_labels())
+    ctx.notes.append(
+        'recovery-returning decoders: the decoder returns, per run, a plain recovery array (or a DecodeResult carrying '
+        'a recovery, with success / logical_commutations / custom_values overrides) scripted by run index or computed '
+        'from the keyword context `error`, never a function of the syndrome; codes with 2..12 stabilizers (repetition-3, '
+        '5-qubit, Steane, planar 2x2 2x3 3x3, toric 2x2), 1..4 steps, errors fixed for the whole call / drawn from a '
+        'pool of 1-3 / random, so syndromes repeat within a call with different outcomes; all 2^5 outcome histories x '
+        '{None,1..4}^2 limits with one fixed error. Per-run outcomes are evaluated from (error, recovery) with an '
+        'independent symplectic product; aggregates, decode/generate call counts and stopping point must follow that '
+        'history. Error-model scripts do not cycle: a loop that runs past the scripted history is reported as '
+        'runaway-loop instead of hanging.')
 
     # ---- per-run vectors of varying numeric kind (dtype / container) within one simulation ----
     # The aggregate is the element-wise sum whatever dtype each run's vector has. Expected totals: exact fold in
